@@ -975,15 +975,17 @@ impl TypeSpace {
         let (mut min, mut max, multiple) = if let Some(validation) = validation {
             let min = match (&validation.minimum, &validation.exclusive_minimum) {
                 (None, None) => None,
-                (None, Some(value)) => Some(value + 1.0),
+                // The smallest integer strictly greater than the bound.
+                (None, Some(value)) => Some(value.floor() + 1.0),
                 (Some(value), None) => Some(*value),
-                (Some(min), Some(emin)) => Some(min.max(emin + 1.0)),
+                (Some(min), Some(emin)) => Some(min.max(emin.floor() + 1.0)),
             };
             let max = match (&validation.maximum, &validation.exclusive_maximum) {
                 (None, None) => None,
-                (None, Some(value)) => Some(value - 1.0),
+                // The largest integer strictly less than the bound.
+                (None, Some(value)) => Some(value.ceil() - 1.0),
                 (Some(value), None) => Some(*value),
-                (Some(max), Some(emax)) => Some(max.min(emax - 1.0)),
+                (Some(max), Some(emax)) => Some(max.min(emax.ceil() - 1.0)),
             };
             (min, max, validation.multiple_of)
         } else {
